@@ -63,8 +63,7 @@ Definition dds_incompatible_pair (c : config) : bool :=
 Definition config_in_domain (c : config) : bool :=
   eqos_normalizedb (c_off c) && eqos_normalizedb (c_req c)
   && names_supported (c_pub_part c) && names_supported (c_sub_part c).
-Definition config_known (c : config) : bool :=
-  known_rxo (c_off c) (c_req c) || known_partition (c_pub_part c) (c_sub_part c).
+Definition config_known (c : config) : bool := known_partition (c_pub_part c) (c_sub_part c).
 
 Definition is_matched (v : verdict) : bool := match v with VMatched => true | _ => false end.
 Fixpoint subset (a b : list Z) : bool :=
